@@ -51,6 +51,12 @@ def directed_reference_duplicates(ctx):
             "actions": [dict(action(4), id=0), dict(action(7), id=1)], "checkpoints": [], "thread_groups": [], "pipelines": []}
     docs = []
     spell = {4: ["object_promise:4", "object_promise:{first}"], 7: ["object_promise:7", "object_promise:{4}"]}
+    # the same names with the two ids exchanged: whatever a validator instance remembers about one document (each
+    # worker also validates every document on an instance it keeps reusing) must not leak into the next
+    swapped = copy.deepcopy(base)
+    swapped["object_promises"][0]["id"], swapped["object_promises"][1]["id"] = 7, 4
+    swapped["actions"][0]["object_promise"], swapped["actions"][1]["object_promise"] = "object_promise:7", "object_promise:4"
+    sspell = {"first": ["object_promise:7", "object_promise:{first}"], "4": ["object_promise:4", "object_promise:{4}"]}
     for a, b in itertools.product(spell[4], repeat=2):
         d = copy.deepcopy(base)
         d["pipelines"] = [pipeline(0, a, "$x", "n"), pipeline(1, b, "$y", "m")]
@@ -60,6 +66,14 @@ def directed_reference_duplicates(ctx):
             d = copy.deepcopy(base)
             d["pipelines"] = [pipeline(0, a, "$x", "n"), pipeline(1, b, "$y", "m")][::1 if order == 0 else -1]
             docs.append(("two pipelines on two object promises (%s / %s); the name of one is the decimal id of the other" % (a, b), d, False))
+            # ... followed by the document with exchanged ids, in which the same two spellings may or may not coincide
+            for a2, b2 in ((sspell["first"][1], sspell["first"][0]), (sspell["first"][1], sspell["4"][0]), (a, b)):
+                d2 = copy.deepcopy(swapped)
+                d2["pipelines"] = [pipeline(0, a2, "$x", "n"), pipeline(1, b2, "$y", "m")]
+                ids = set()
+                for r_ in (a2, b2):
+                    ids.add({"object_promise:7": 7, "object_promise:{first}": 7, "object_promise:4": 4, "object_promise:{4}": 4}[r_])
+                docs.append(("ids exchanged: pipelines on %s / %s" % (a2, b2), d2, len(ids) == 1))
     f = os.path.join(ctx.repo_copy, "schemas", "test", "native_checkpoint_to_imported_action.json")
     imp = os.path.join(ctx.repo_copy, "schemas", "test", "basic_import.json")
     if os.path.exists(f) and os.path.exists(imp):
@@ -96,6 +110,12 @@ def directed_reference_duplicates(ctx):
         elif not dup and (dup_reported or r["outcome"] == "raise") and n_bad < 3:
             n_bad += 1
             ctx.violation({"what": "distinct identifiers are reported as duplicates: " + what, "document": d, "implementation": r})
+        elif r.get("reused") and n_bad < 3:
+            n_bad += 1
+            ctx.violation({"what": "duplicate detection depends on what the same validator instance validated before: " + what,
+                           "difference": {k: v for k, v in r["reused"].items() if k != "previous_document"},
+                           "history": [r["reused"].get("previous_document"), d], "document": d},
+                          no_input="previous_document" not in r["reused"])
     return len(docs), sum(1 for (_, _, dup), r in zip(docs, res) if dup), sum(1 for r in res if r["outcome"] == "accept")
 
 
